@@ -20,3 +20,15 @@ print("| seed | change | needs | caught by (quick tier) | first signatures |")
 print("|---|---|---|---|---|")
 for r in rows:
     print("| %s | %s | %s | %s | %s |" % r)
+import sys
+if "--update" in sys.argv:
+    # replace the table inside DESIGN.md in place
+    p = os.path.join(V, "DESIGN.md")
+    lines = open(p).read().split("\n")
+    a = next(i for i, l in enumerate(lines) if l.startswith("| seed | change | needs |"))
+    b = a
+    while b < len(lines) and lines[b].startswith("|"):
+        b += 1
+    table = ["| seed | change | needs | caught by (quick tier) | first signatures |", "|---|---|---|---|---|"] + ["| %s | %s | %s | %s | %s |" % r for r in rows]
+    open(p, "w").write("\n".join(lines[:a] + table + lines[b:]))
+    sys.stderr.write("DESIGN.md: table of %d seeds updated\n" % len(rows))
